@@ -65,55 +65,65 @@ def gen_value(r, names, text=False):
     return ("mix", parts)
 
 
-def gen_nodes(r, names, depth, n=None):
+def gen_nodes(r, names, depth, n=None, subs=None):
     out = []
     for _ in range(r.below(4) if n is None else n):
-        nd = gen_node(r, names, depth)
+        nd = gen_node(r, names, depth, subs)
         if nd[0] == "text" and out and out[-1][0] == "text":
             continue
         out.append(nd)
     return out
 
 
-def gen_carrier(r, names, depth):
+def gen_carrier(r, names, depth, subs=None):
     """the element that carries a wx:if / wx:for: ("block", children) or an element"""
     if r.chance(1, 3):
-        return ("block", gen_nodes(r, names, depth - 1))
-    return gen_elem(r, names, depth)
+        return ("block", gen_nodes(r, names, depth - 1, subs=subs))
+    return gen_elem(r, names, depth, subs)
 
 
-def gen_elem(r, names, depth):
+def gen_elem(r, names, depth, subs=None):
     attrs, used = [], set()
     for _ in range(r.below(3)):
         nm = r.choice(ATTRS)
         if nm not in used:
             used.add(nm)
             attrs.append((nm, gen_value(r, names)))
-    return ("elem", r.choice(TAGS), attrs, gen_nodes(r, names, depth - 1) if depth > 0 else [])
+    return ("elem", r.choice(TAGS), attrs, gen_nodes(r, names, depth - 1, subs=subs) if depth > 0 else [])
 
 
-def gen_node(r, names, depth):
+def gen_node(r, names, depth, subs=None):
     c = r.below(10) if depth > 0 else r.below(3)
     if c < 3:
         return ("text", gen_value(r, names, True))
     if c < 5:
-        return gen_elem(r, names, depth)
+        return gen_elem(r, names, depth, subs)
     if c == 5 and r.chance(1, 3):
         # <include>: the included file's content, which sees the data but no scope variable of the includer
         return ("include", gen_nodes(r, [], depth - 1) or [("text", ("mix", [("s", "inc")]))])
     if c == 5:
-        return ("block", gen_nodes(r, names, depth - 1))
+        return ("block", gen_nodes(r, names, depth - 1, subs=subs))
     if c in (6, 7):
-        brs = [(("e", gen_expr(r, names)), gen_carrier(r, names, depth)) for _ in range(1 + r.below(3))]
-        els = gen_carrier(r, names, depth) if r.chance(1, 2) else None
+        brs = [(("e", gen_expr(r, names)), gen_carrier(r, names, depth, subs)) for _ in range(1 + r.below(3))]
+        els = gen_carrier(r, names, depth, subs) if r.chance(1, 2) else None
         return ("cond", brs, els)
+    if c == 9 and subs is not None and r.chance(1, 2):
+        # <template is data>: a static or computed name, named / shorthand data fields; the templates see only their data object
+        if not subs:
+            for nm in ("t0", "t1", "t2")[:1 + r.below(3)]:
+                subs[nm] = gen_nodes(r, [], 2, 1 + r.below(2), subs=None) or [("text", ("mix", [("s", nm)]))]
+        isv = r.choice([("mix", [("s", nm)]) for nm in subs] + [("e", "c ? 't0' : 't1'"), ("e", "k"), ("e", "d || 't0'"), ("e", "n")])
+        fields = []
+        for fn in r.choice([["a"], ["a", "b"], ["o", "l"], ["c", "k", "n"], ["s", "m"]]):
+            fields.append((fn, ("e", fn)) if r.chance(1, 2) else (fn, ("e", gen_expr(r, names, 1))))
+        return ("tref", isv, fields)
     item = r.choice([None, None, "it", "item", "a"])
     index = r.choice([None, None, "ix", "index", "b"])
     if item is not None and item == index:
         index = None
     lst = r.choice(["l", "o", "s", "n", "m", "o.q", "c ? l : o", "l[0].r", "d || l", "u", "q"] + [x + ".r" for x in names])
     key = r.choice([None, None, "k", "p", "*this"])
-    return ("for", ("e", lst), item, index, gen_carrier(r, names + [item or "item", index or "index"], depth), key)
+    return ("for", ("e", lst), item, index, gen_carrier(r, names + [item or "item", index or "index"], depth, subs), key)
 
 
 # ---------------------------------------------------------------------------------------------
@@ -158,6 +168,9 @@ def wx_node(n, files=None):
         if n[2] is not None:
             out.append(wx_carrier(n[2], " wx:else", files))
         return "".join(out)
+    if k == "tref":
+        data = ", ".join(fn if v == ("e", fn) else "%s: %s" % (fn, v[1]) for fn, v in n[2])
+        return '<template is="%s" data="{{ %s }}"/>' % (wx_value(n[1]).replace('"', "&quot;"), data)
     if k == "for":
         extra = ' wx:for="%s"' % wx_value(n[1])
         if n[2] is not None:
@@ -200,11 +213,17 @@ def sx_node(n):
         if n[2] is not None:
             parts.append("(else %s)" % sx_carrier_nodes(n[2]))
         return "(cond %s)" % " ".join(parts)
+    if k == "tref":
+        return "(tref %s (fields %s) (cases %s))" % (sx_value(n[1]), " ".join("(%s %s)" % (q(fn), sx_value(v)) for fn, v in n[2]),
+                                                     " ".join("(%s %s)" % (q(nm), " ".join(sx_node(x) for x in body)) for nm, body in SUBS_FOR_SX.items()))
     if k == "for":
         if len(n) > 5 and n[5] is not None:
             return "(forkey %s %s %s %s %s)" % (sx_value(n[1]), q(n[5]), q(n[2] or "item"), q(n[3] or "index"), sx_carrier_nodes(n[4]))
         return "(for %s %s %s %s)" % (sx_value(n[1]), q(n[2] or "item"), q(n[3] or "index"), sx_carrier_nodes(n[4]))
     raise ValueError(k)
+
+
+SUBS_FOR_SX = {}     # the named templates of the case being printed (set by `stream`)
 
 
 def sx_data(v):
@@ -384,8 +403,10 @@ def stream(chk, rng, count, bindmap=False):
     cases = []
     for i in range(count):
         r = rng.fork(("tagsem", i))
-        nodes = gen_nodes(r, [], 3, 1 + r.below(3)) or [("text", ("mix", [("s", "t")]))]
+        subs = {}
+        nodes = gen_nodes(r, [], 3, 1 + r.below(3), subs=subs) or [("text", ("mix", [("s", "t")]))]
         if bindmap and i % 2 == 0:
+            subs = {}
             # mostly static templates (the binding map only reaches bindings outside wx:if / wx:for), sometimes with one dynamic subtree
             nodes = [gen_elem(r, [], 2 if r.chance(1, 3) else 1) if r.chance(2, 3) else ("block", [("text", gen_value(r, [])), gen_elem(r, [], 0)])
                      for _ in range(1 + r.below(3))]
@@ -404,18 +425,18 @@ def stream(chk, rng, count, bindmap=False):
             elif mode == 2 and u is not None:
                 u = True
             steps.append({"update": b, "U": up.tree_to_req(u)})
-        cases.append((nodes, hist, steps))
+        cases.append((nodes, hist, steps, subs))
         if bindmap and i % 2 == 0:
             # the same template, every data field changed on its own and handed to the binding map (refused for fields it does not advertise)
             for f in sorted(D0):
                 D1 = dict(D0)
                 D1[f] = copy.deepcopy(r.choice([x for x in LEAVES if x != D0[f]]))
-                cases.append((nodes, [D0, D1], [{"create": D0}, {"bindmap": f, "D": D1}]))
-    cases += directed_cases()
+                cases.append((nodes, [D0, D1], [{"create": D0}, {"bindmap": f, "D": D1}], subs))
+    cases += [c_ + ({},) for c_ in directed_cases()]
     srcs, groups_in = [], []
-    for n, _, _ in cases:
+    for n, _, _, subs in cases:
         files = {}
-        main = wx_nodes(n, files)
+        main = "".join('<template name="%s">%s</template>' % (nm, wx_nodes(body, files)) for nm, body in subs.items()) + wx_nodes(n, files)
         srcs.append(main)
         groups_in.append([["p", main]] + [[k, v] for k, v in files.items()])
     groups = render.compile_templates(groups_in)
@@ -429,7 +450,9 @@ def stream(chk, rng, count, bindmap=False):
     outs = core.run_node(reqs) if reqs else []
     dreqs, real = [], []
     for i, o in zip(keep, outs):
-        nodes, hist, steps = cases[i]
+        nodes, hist, steps, subs = cases[i]
+        SUBS_FOR_SX.clear()
+        SUBS_FOR_SX.update(subs)
         if "error" in o or len(o.get("snapshots", [])) != len(steps):
             # (the history oracle of C06 reports updates that throw; here the case is only not comparable)
             chk.bump("corr:tagsem:real-failed")
